@@ -39,6 +39,9 @@ pub fn run(c: &Value) -> CaseResult {
             let int_ok = |x: f64| x.fract() == 0.0 && x.abs() <= 9007199254740992.0;
             if int_ok(a.0) && int_ok(b.0) && int_ok(a.0 + b.0) && int_ok(a.0 - b.0) && (a.0 as i128 + b.0 as i128 == (a.0 + b.0) as i128) && (a.0 as i128 - b.0 as i128 == (a.0 - b.0) as i128) {
                 chk("real: (a+b)-b == a on exact integers", (a + b) - b == a)?;
+                if int_ok(d.0) && ((a.0 as i128 + b.0 as i128 + d.0 as i128).abs() <= 9007199254740992) && ((b.0 as i128 + d.0 as i128).abs() <= 9007199254740992) && ((a.0 as i128 + b.0 as i128).abs() <= 9007199254740992) {
+                    chk("real: + associative on exact integers", (a + b) + d == a + (b + d))?;
+                }
                 chk("real: (a-b)+b == a on exact integers", (a - b) + b == a)?;
             }
             if a <= b {
